@@ -16,7 +16,7 @@ import vlib
 from props import lifecycle_common as lc
 from props import gen_common
 
-C03_KINDS = {"ResultDiffers", "BufNotEmpty", "RetNotBuf", "InfoIdentity", "StaleContext", "SkipFlagLeft", "Panic", "Timeout"}
+C03_KINDS = {"ResultDiffers", "BufNotEmpty", "RetNotBuf", "InfoIdentity", "StaleContext", "SkipFlagLeft", "Panic", "Timeout", "ProtocolSkipped"}
 
 
 def run(ctx):
